@@ -281,3 +281,121 @@ def guards_of(fnode, target_stmt):
 
     rec(fnode.body, [])
     return result[0] if result else None
+
+
+# -------------------------------------------------------------------------- explicit path enumeration
+class PathLimit(AnalysisError):
+    pass
+
+
+def enumerate_paths(body, max_paths=4096, loop_unroll=(0, 1), exc_paths=True):
+    """All control-flow paths through a structured statement list (small functions only).
+
+    A path is a list of items:
+        ('stmt', node)                simple statement executed
+        ('test', expr, bool)          branch condition with its outcome
+        ('iter', for_node, k)         entering iteration k (0-based) of a for loop / ('iter-end', for_node, n)
+        ('raise-in', try_node, stmt)  an exception raised by `stmt` inside try_node's body (handler follows)
+        ('handler', handler_node)
+    and ends with ('exit', kind, node) where kind in {'return','raise','end'}.
+    Loops are unrolled for the iteration counts in loop_unroll.
+    """
+    results = []
+
+    def emit(path):
+        if len(results) >= max_paths:
+            raise PathLimit("more than %d paths" % max_paths)
+        results.append(path)
+
+    # continuation-passing enumeration
+    def run_block(stmts, i, path, k):
+        if i == len(stmts):
+            return k(path)
+        st = stmts[i]
+
+        def nxt(p):
+            return run_block(stmts, i + 1, p, k)
+
+        return run_stmt(st, path, nxt, k_loop=None)
+
+    loop_ctx = []
+
+    def run_stmt(st, path, nxt, k_loop):
+        if isinstance(st, ast.If):
+            run_block(st.body, 0, path + [("test", st.test, True)], nxt)
+            run_block(st.orelse, 0, path + [("test", st.test, False)], nxt)
+            return
+        if isinstance(st, (ast.For, ast.AsyncFor)):
+            for n in loop_unroll:
+                def iterate(p, j, n=n):
+                    if j == n:
+                        p2 = p + [("iter-end", st, n)]
+                        if st.orelse:
+                            return run_block(st.orelse, 0, p2, nxt)
+                        return nxt(p2)
+                    loop_ctx.append({"break": lambda pp: nxt(pp + [("break", st)]),
+                                     "continue": lambda pp, j=j: iterate(pp, j + 1)})
+                    try:
+                        run_block(st.body, 0, p + [("iter", st, j)], lambda pp, j=j: iterate(pp, j + 1))
+                    finally:
+                        loop_ctx.pop()
+                iterate(path, 0)
+            return
+        if isinstance(st, ast.While):
+            for n in loop_unroll:
+                def iterate(p, j, n=n):
+                    if j == n:
+                        return nxt(p + [("test", st.test, False)])
+                    loop_ctx.append({"break": lambda pp: nxt(pp + [("break", st)]),
+                                     "continue": lambda pp, j=j: iterate(pp, j + 1)})
+                    try:
+                        run_block(st.body, 0, p + [("test", st.test, True)], lambda pp, j=j: iterate(pp, j + 1))
+                    finally:
+                        loop_ctx.pop()
+                iterate(path, 0)
+            return
+        if isinstance(st, ast.Try):
+            def after(p):
+                if st.finalbody:
+                    return run_block(st.finalbody, 0, p, nxt)
+                return nxt(p)
+
+            def after_body(p):
+                if st.orelse:
+                    return run_block(st.orelse, 0, p, after)
+                return after(p)
+
+            run_block(st.body, 0, path, after_body)
+            if exc_paths:
+                # exception raised by the j-th top-level statement of the body
+                for j, s in enumerate(st.body):
+                    for h in st.handlers:
+                        def to_handler(p, s=s, h=h):
+                            return run_block(h.body, 0, p + [("raise-in", st, s), ("handler", h)], after)
+                        run_block(st.body[:j], 0, path, to_handler)
+            return
+        if isinstance(st, (ast.With, ast.AsyncWith)):
+            run_block(st.body, 0, path + [("stmt", st)], nxt)
+            return
+        if isinstance(st, ast.Return):
+            emit(path + [("stmt", st), ("exit", "return", st)])
+            return
+        if isinstance(st, ast.Raise):
+            emit(path + [("stmt", st), ("exit", "raise", st)])
+            return
+        if isinstance(st, ast.Break):
+            if loop_ctx:
+                return loop_ctx[-1]["break"](path)
+            return
+        if isinstance(st, ast.Continue):
+            if loop_ctx:
+                return loop_ctx[-1]["continue"](path)
+            return
+        return nxt(path + [("stmt", st)])
+
+    run_block(body, 0, [], lambda p: emit(p + [("exit", "end", None)]))
+    return results
+
+
+def path_stmts(path):
+    return [it[1] for it in path if it[0] == "stmt"]
